@@ -254,6 +254,46 @@ func (g *Group) subgroupChecks(t *TraceWriter, pts []*testPoint, r *Rng, n int) 
 			cnt++
 		}
 	}
+	// off-curve: a valid representative with ONE coordinate doubled or incremented (structured: such triples satisfy many of
+	// the identities a membership test relies on - e.g. a Z rescaled by a base-field scalar commutes with the endomorphisms -
+	// and only the curve equation tells them apart), affine and Jacobian
+	for pi, tp := range pts {
+		if pi == 0 || pi > 6 {
+			continue // pts[0] is the point at infinity
+		}
+		for _, k := range []string{"aff", "jac"} {
+			base := tp.rep(k, r)
+			for fi := 0; fi < base.Elem().NumField(); fi++ {
+				for _, how := range []string{"Double", "AddOne"} {
+					if how == "AddOne" && (pi+fi)%2 == 1 {
+						continue
+					}
+					p := clonePtr(base)
+					c := p.Elem().Field(fi).Addr()
+					if how == "Double" {
+						method(c, "Double").Call([]reflect.Value{c})
+					} else {
+						one := reflect.New(c.Elem().Type())
+						method(one, "SetOne").Call(nil)
+						method(c, "Add").Call([]reflect.Value{c, one})
+					}
+					for _, name := range []string{"IsOnCurve", "IsInSubGroup"} {
+						if !p.MethodByName(name).IsValid() {
+							continue
+						}
+						e := Ev{"op": name, "g": g.G, "rk": k, "args": []any{tagged(k, p)}, "labels": []string{"off:" + tp.label}}
+						out, pm, pk := g.invoke(k, name, clonePtr(p), nil)
+						if pk {
+							e["panic"] = pm
+						} else {
+							e["ret"] = out[0].Bool()
+						}
+						t.Emit(e)
+					}
+				}
+			}
+		}
+	}
 	// off-curve: random coordinates
 	for i := 0; i < 2; i++ {
 		p := g.NewAff()
